@@ -7,7 +7,10 @@ package store
 
 //@ func (*Local).debug trusted
 //@   modifies nothing
-//@ func (*Local).getRelPath trusted
+// the name under which a file is announced is its path below the root: exactly the leading root (and
+// one separator) is stripped - a later occurrence of the same text inside the path stays
+//@ func (*Local).getRelPath
+//@   on return assert strips-exactly-the-leading-root: hasprefix(dir.Root, root) && (hasprefix(path, root+sep) ==> root + sep + result == path) && (!contains(path, root+sep) ==> result == path)
 //@   modifies nothing
 //@ func newLocalFile trusted
 //@   modifies nothing
